@@ -72,8 +72,15 @@ def cases(draw: Any, tier: str) -> dict:
             else:
                 crashed = True
         regs.append(r)
+    regs2: list[dict] = []
+    if d.pct(35):
+        # a concurrent registrar (think: sibling components starting at the same time)
+        for r in regs:
+            r["pre"] = d.int(0, 2)
+        for _ in range(d.int(1, 3)):
+            regs2.append({"k": d.pick(["res", "res", "td"]), "pre": d.int(0, 3)})
     return {"backend": draw(BACKEND), "sched_seed": draw(SEED), "kind": d.pick(["root", "nested"]), "body_sleep": body_sleep,
-            "ending": d.weighted([("return", 70), ("raise", 30)]), "regs": regs}
+            "ending": d.weighted([("return", 70), ("raise", 30)]), "regs": regs, "regs2": regs2}
 
 
 def strategy(prop: str, tier: str) -> st.SearchStrategy:
@@ -91,6 +98,8 @@ class Interp:
         self.caught: BaseException | None = None
         self.body_cancelled = False
         self.crash_exc: BaseException | None = None
+        self.snapshots: dict[int, set[str]] = {}
+        self.all_regs: list[dict] = []
 
     def disc(self, bucket: str, msg: str) -> None:
         self.out.add("service", "service:" + bucket, msg)
@@ -105,7 +114,7 @@ class Interp:
                 if self.harness_exc is None:
                     self.harness_exc = leaf
 
-    def make_task(self, i: int, reg: dict, stop: anyio.Event, expected_names: set[str]) -> Any:
+    def make_task(self, i: int, reg: dict, stop: anyio.Event) -> Any:
         from asphalt.core import add_teardown_callback, current_context, get_resources
 
         interp = self
@@ -117,8 +126,15 @@ class Interp:
             except Exception as exc:
                 interp.snap_problems.append(f"task {i} {when}: get_resources raised {short_exc(exc)}")
                 return
-            if names != expected_names:
-                interp.snap_problems.append(f"task {i} {when}: sees resources {sorted(names)}, those present when it was started: {sorted(expected_names)}")
+            if when == "at start":
+                # the snapshot is taken when the task's context is created, i.e. right now: exactly
+                # the resources whose registration has completed
+                expected = {f"r{t[2]}" for t in interp.trace if t[1] == "reg" and interp.all_regs[t[2]]["k"] == "res"}
+                interp.snapshots[i] = set(names)
+                if names != expected:
+                    interp.snap_problems.append(f"task {i} at start: sees resources {sorted(names)}, registered so far: {sorted(expected)}")
+            elif names != interp.snapshots.get(i, names):
+                interp.snap_problems.append(f"task {i} {when}: sees resources {sorted(names)}, its snapshot at start was {sorted(interp.snapshots[i])}")
 
         async def run() -> None:
             interp.ev("task-start", i)
@@ -175,9 +191,14 @@ class Interp:
         interp = self
         cancelled_cls = anyio.get_cancelled_exc_class()
 
-        async def block(ctx: Any) -> None:
-            names: set[str] = set()
-            for i, reg in enumerate(regs):
+        all_regs = regs + case.get("regs2", [])
+        self.all_regs = all_regs
+
+        async def register(ctx: Any, ids: list[int]) -> None:
+            for i in ids:
+                reg = all_regs[i]
+                for _ in range(reg.get("pre", 0)):
+                    await anyio.lowlevel.checkpoint()
                 if reg["k"] == "td":
                     def cb(i: int = i) -> None:
                         interp.ev("cb-begin", i)
@@ -189,7 +210,6 @@ class Interp:
                         await anyio.sleep(1)
                         interp.ev("cb-end", i)
                     add_resource(Res(i), f"r{i}", teardown_callback=rcb)
-                    names.add(f"r{i}")
                 else:
                     stop = anyio.Event()
                     action: Any
@@ -219,13 +239,29 @@ class Interp:
                             interp.ev("action", i)
                             interp.ev("action-end", i)
                             raise ActBase(f"action {i}")
-                    fn = self.make_task(i, reg, stop, set(names))
+                    fn = self.make_task(i, reg, stop)
                     if reg["via"] == "module":
                         v = await start_service_task(fn, f"svc{i}", teardown_action=action)
                     else:
                         v = await ctx.start_service_task(fn, f"svc{i}", teardown_action=action)
                     self.start_values[i] = v
                 self.ev("reg", i)
+
+        async def block(ctx: Any) -> None:
+            n1 = len(regs)
+            if case.get("regs2"):
+                async def helper() -> None:
+                    try:
+                        await register(ctx, list(range(n1, len(all_regs))))
+                    except BaseException as exc:
+                        self.note_escape(exc)
+                        raise
+
+                async with anyio.create_task_group() as tg:
+                    tg.start_soon(helper)
+                    await register(ctx, list(range(n1)))
+            else:
+                await register(ctx, list(range(n1)))
             try:
                 await anyio.sleep(case["body_sleep"])
             except cancelled_cls:
@@ -266,9 +302,17 @@ class Interp:
 
     def judge(self) -> Outcome:
         case = self.case
-        regs = case["regs"]
+        regs = self.all_regs or case["regs"]
         tr = self.trace
         out = self.out
+        order = [t[2] for t in tr if t[1] == "reg"]  # observed registration order
+        place = {j: k for k, j in enumerate(order)}
+
+        def later(i: int) -> list[int]:
+            return [j for j in order if place[j] > place[i]]
+
+        def earlier(i: int) -> list[int]:
+            return [j for j in order if place[j] < place[i]]
 
         def pos(kind: str, i: int) -> list[int]:
             return [t[0] for t in tr if t[1] == kind and t[2] == i]
@@ -277,6 +321,8 @@ class Interp:
         left_s = left[0] if left else 10**9
         crash = any(r.get("beh") == "crash" for r in regs if r["k"] == "svc")
         svc = [(i, r) for i, r in enumerate(regs) if r["k"] == "svc"]
+        if case.get("regs2"):
+            out.labels.append("concurrent-registrar")
         # every task has ended before the owning block is left
         for i, r in svc:
             if not pos("task-start", i):
@@ -320,13 +366,13 @@ class Interp:
                         self.disc("action-count", f"teardown callable of task {i} was invoked {len(acts)} times")
                         continue
                     # after everything registered later has completed
-                    for j in range(i + 1, len(regs)):
+                    for j in (later(i) if i in place else []):
                         ends = pos("cb-end", j) if regs[j]["k"] != "svc" else pos("task-end", j) + pos("inner-td", j)
                         if any(e > acts[0] for e in ends):
                             self.disc("finalized-too-early", f"task {i} was told to stop before registration {j} (registered later) had finished")
                 cancelled = bool(pos("task-cancelled", i))
                 # when does this task's finalizer run? when everything registered later has finished
-                later_done = [t[3] for t in tr for j in range(i + 1, len(regs))
+                later_done = [t[3] for t in tr for j in (later(i) if i in place else [])
                               if t[2] == j and t[1] in ("cb-end", "task-end", "inner-td", "action-end")]
                 fin_time = max(later_done + [t[3] for t in tr if t[1] == "body-end"])
                 if r["beh"] == "self_end":
@@ -343,13 +389,19 @@ class Interp:
                 if cancelled and r["action"] == "cancel":
                     # the cancellation comes after everything registered later has completed
                     tc = pos("task-cancelled", i)[0]
-                    for j in range(i + 1, len(regs)):
+                    for j in (later(i) if i in place else []):
                         ends = pos("cb-end", j) if regs[j]["k"] != "svc" else pos("task-end", j) + pos("inner-td", j)
                         if any(e > tc for e in ends):
                             self.disc("finalized-too-early", f"task {i} was cancelled before registration {j} (registered later) had finished")
                 # nothing registered earlier starts its teardown before this task is completely finished
                 mine = pos("task-end", i) + pos("inner-td", i)
-                for j in range(i):
+                # whatever the task saw in its snapshot must outlive it
+                for nm in sorted(self.snapshots.get(i, ())):
+                    j = int(nm[1:])
+                    if any(s_ < m for s_ in pos("cb-begin", j) for m in mine):
+                        self.disc("snapshot-resource-torn-down-first", f"resource {nm} was visible to task {i} ({r['action']}/{r['beh']}) when it started, "
+                                  f"but its teardown callback ran before the task and its context had finished")
+                for j in (earlier(i) if i in place else []):
                     if regs[j]["k"] != "svc":
                         starts = pos("cb-begin", j)
                     else:
@@ -374,8 +426,8 @@ class Interp:
             labs.add("beh=" + r["beh"])
         if crash:
             labs.add("crash")
-        out.labels = sorted(labs)
-        out.nontrivial = any(i > 0 and i < len(regs) - 1 and r["c"] > 0 for i, r in svc)
+        out.labels = sorted(labs | set(out.labels))
+        out.nontrivial = any(i in place and earlier(i) and later(i) and r["c"] > 0 for i, r in svc)
         out.trace = [list(t) for t in tr[:80]]
         return out
 
